@@ -7,6 +7,7 @@ of a third-party dependency; nothing here describes code of the package under an
 from __future__ import annotations
 
 import ast
+import os
 import asyncio
 import binascii
 import builtins
@@ -101,6 +102,8 @@ RAISES: Dict[str, tuple] = {
     "json.dump": (RuntimeError, OSError, TypeError, ValueError),
     "builtins.open": (OSError,),
     "os.rename": (OSError,),
+    "os.open": (OSError,),
+    "os.fdopen": (OSError,),
     "os.replace": (OSError,),
     "os.remove": (OSError,),
     "os.unlink": (OSError,),
@@ -251,6 +254,8 @@ class ExtModel:
             return ModV("ext:" + full)
         if modname == "os" and name in ("W_OK", "R_OK", "X_OK", "F_OK"):
             return Const({"F_OK": 0, "R_OK": 4, "W_OK": 2, "X_OK": 1}[name])
+        if modname == "os" and name.startswith("O_") and isinstance(getattr(os, name, None), int):
+            return Const(getattr(os, name))
         if modname == "pickle" and name == "HIGHEST_PROTOCOL":
             return Const(pickle.HIGHEST_PROTOCOL)
         return ExtV(full)
@@ -417,6 +422,10 @@ class ExtModel:
             if short.startswith("humanize"):
                 return Unknown("str", label=f"humanize:{site}")
         if name == "builtins.open":
+            return ExtObj(f"file@{site}", "file", args, kwargs)
+        if name == "os.open":
+            return ExtObj(f"fd@{site}", "fd", args, kwargs)
+        if name == "os.fdopen":
             return ExtObj(f"file@{site}", "file", args, kwargs)
         if name == "asyncio.get_running_loop" or name == "asyncio.get_event_loop":
             return ExtObj("loop", "asyncio.loop")
